@@ -2549,3 +2549,49 @@ Example ex_within_start_rect :
   overlaps (meta_bbox ex_grid 1 1 (2, 2, 2)) ex_cov /\
   In (2, 2, 2) (procs (geo_walk ex_grid 1 1 (cov_bboxes [ex_cov]) 0 [0; 1; 2] ex_cov None)).
 Proof. vm_compute. repeat split; auto 20. Qed.
+
+(* ------------------------------------------------------------------ the work of a seed worker on one handed list *)
+
+Lemma cache_has_in c t : In t c -> cache_has c t = true.
+Proof.
+  intros H. unfold cache_has. apply existsb_exists. exists t. split; [exact H|].
+  destruct t as [[a b] d]. unfold coord_eqb. rewrite !Z.eqb_refl. reflexivity.
+Qed.
+
+Lemma cache_has_app c d t : cache_has (c ++ d) t = cache_has c t || cache_has d t.
+Proof. unfold cache_has. apply existsb_app. Qed.
+
+Lemma worker_completes_meta_tile c members t :
+  In t members -> cache_has (c ++ worker_stores c members (uncached_members c members)) t = true.
+Proof.
+  intros Hin. rewrite cache_has_app. unfold worker_stores, create_meta_stores, uncached_members.
+  destruct (forallb (cache_has c) members) eqn:Hall.
+  - rewrite forallb_forall in Hall. rewrite (Hall t Hin). reflexivity.
+  - destruct (cache_has c t) eqn:Ht; [reflexivity|]. cbn [orb].
+    assert (Hex : existsb (fun t0 => negb (cache_has c t0)) (filter (fun t0 => negb (cache_has c t0)) members) = true).
+    { apply existsb_exists. exists t. split; [|rewrite Ht; reflexivity].
+      apply filter_In. split; [exact Hin|rewrite Ht; reflexivity]. }
+    rewrite Hex. apply cache_has_in. exact Hin.
+Qed.
+
+Lemma interrupted_store_completed_lemma c members j t :
+  let c1 := cache_after c (worker_stores c members (uncached_members c members)) j in
+  let c2 := c1 ++ worker_stores c1 members (uncached_members c1 members) in
+  In t members -> cache_has c2 t = true.
+Proof. intros c1 c2 Hin. apply worker_completes_meta_tile. exact Hin. Qed.
+
+Lemma worker_stores_nothing_cached c members handed :
+  forallb (cache_has c) members = true -> worker_stores c members handed = [].
+Proof.
+  intros H. unfold worker_stores, create_meta_stores. rewrite H. destruct (existsb _ handed); reflexivity.
+Qed.
+
+(* what goes wrong when the re-check under the lock looks at the lock tile only: the worker died behind the first of four
+   tiles; the continued run hands over the other three and nothing is stored *)
+Example ex_interrupted_store :
+  let members := [(0, 3, 2); (1, 3, 2); (0, 2, 2); (1, 2, 2)] in
+  let c1 := cache_after [] (worker_stores [] members (uncached_members [] members)) 1 in
+  c1 = [(0, 3, 2)] /\ uncached_members c1 members = [(1, 3, 2); (0, 2, 2); (1, 2, 2)] /\
+  worker_stores c1 members (uncached_members c1 members) = members /\
+  (if cache_has c1 (0, 3, 2) then [] else members) = [].
+Proof. vm_compute. repeat split. Qed.
